@@ -344,6 +344,7 @@ func lentObject() {
 		vrt.Failf(fmt.Sprintf("hang/lent-object-call/step%d", step), "client B's call on the object lent by client A never returned (after step %d: 1 = obtained, 2 = echo(5) returned, 3 = echo(-7) returned); blocked on %s", step, wb.BlockedOn())
 	}
 	fx.Settle(wa)
+	vrt.Freeze() // what follows (a post to the lent object, the wire checks) runs on the default schedule
 	switch {
 	case eGet != nil:
 		vrt.Failf("call-failed/adopted", "adopted() failed: %v", eGet)
@@ -682,7 +683,7 @@ func init() {
 		Doc: "A: a call whose answer is exactly MaxPayloadSize bytes || B (other connection): a call whose answer is one byte larger: each gets exactly one outcome, the service keeps serving"})
 	reg.Register(&reg.Scenario{Property: "C04", Name: "two-clients-one-connection", Body: twoClients, Quick: 1, Thorough: 3,
 		Doc: "two client objects on one connection (equal message counters) call the same action of two objects; the later call is answered first"})
-	reg.Register(&reg.Scenario{Property: "C04", Name: "lent-client-object", Body: lentObject, Quick: 1, Thorough: 2,
+	reg.Register(&reg.Scenario{Property: "C04", Name: "lent-client-object", Body: lentObject, Quick: 2, Thorough: 3,
 		Doc: "client A lends an object it hosts to the service (adopt); client B obtains it (adopted) and calls echo(5) and echo(-7) on it through the service's relay while A calls the service: results and errors come back to their own callers"})
 	reg.Register(&reg.Scenario{Property: "C04", Name: "lent-client-object-subscribe", Body: lentSubscribe, Quick: 1, Thorough: 2,
 		Doc: "client B subscribes to a signal of the object client A lent to the service (registerEvent relayed by bus.clientObject): the call gets one answer; if it succeeds, the events emitted by the host arrive once"})
